@@ -18,6 +18,8 @@ XSI = "http://www.w3.org/2001/XMLSchema-instance"
 XMLNS = "http://www.w3.org/XML/1998/namespace"
 FRESH_NS = "urn:c10:unknown"
 
+FLAGS = ("fail_on_unknown_properties", "fail_on_unknown_attributes", "fail_on_converter_warnings")
+
 CFG8 = [
     {"fail_on_unknown_properties": p, "fail_on_unknown_attributes": a, "fail_on_converter_warnings": c}
     for p in (True, False)
@@ -169,7 +171,33 @@ ROUTES = ("events", "native", "lxml")
 def parse_route(uni, clazz, tree, config, route):
     if route == "events":
         return B.real_parse_tree(uni, clazz, tree, config)
-    return G.real_parse_bytes(uni, clazz, G.tree_xml(tree), handler=route, config=config)
+    return parse_bytes_keepcfg(uni, clazz, G.tree_xml(tree), route, config)
+
+
+def parse_bytes_keepcfg(uni, clazz, data: bytes, handler, config):
+    """XmlParser.from_bytes with an explicit ParserConfig instance; reports a changed config"""
+    from xsdata.exceptions import ConverterWarning
+    from xsdata.formats.dataclass.context import XmlContext
+    from xsdata.formats.dataclass.parsers import XmlParser
+    from xsdata.formats.dataclass.parsers.config import ParserConfig
+    from xsdata.formats.dataclass.parsers.handlers import LxmlEventHandler, XmlEventHandler
+
+    dflt = ParserConfig()
+    full = {k: config.get(k, getattr(dflt, k)) for k in FLAGS}
+    cfg = ParserConfig(**full)
+    h = XmlEventHandler if handler == "native" else LxmlEventHandler
+    p = XmlParser(context=XmlContext(models_package=uni.modname), config=cfg, handler=h)
+    with warnings.catch_warnings(record=True) as w:
+        warnings.simplefilter("always")
+        try:
+            obj = p.from_bytes(data, uni.classes[clazz])
+            r = {"ok": {"value": uni.to_val(obj), "warnings": sum(1 for x in w if issubclass(x.category, ConverterWarning))}}
+        except Exception as e:  # noqa: BLE001
+            r = B.classify_exc(e)
+    after = {k: getattr(cfg, k) for k in FLAGS}
+    if after != full:
+        return {"err": "CONFIG-CHANGED", "after": after}
+    return r
 
 
 # --------------------------------------------------------------------------
@@ -384,3 +412,273 @@ def real_best(keys, cands):
     finally:
         DictDecoder.bind_dataclass = orig
     return {"ok": type(obj).__name__}
+
+
+# --------------------------------------------------------------------------
+# dictionary documents with polymorphic (best-match) fields
+# --------------------------------------------------------------------------
+def _opt(t):
+    return {"opt": t}
+
+
+def _f(name, t, typ="Element", default=None, **md):
+    return {"name": name, "type": t, "metadata": {"type": typ, **md}, "default": default if default is not None else {"value": None}}
+
+
+def poly_desc(rng):
+    """A universe whose Root mixes plain int/bool fields with the four kinds of fields that
+    DictDecoder binds through bind_best_dataclass, in a random order."""
+    animal = {"name": "Animal", "fields": [_f("name", _opt("str")), _f("legs", _opt("int"))]}
+    dog = {"name": "Dog", "bases": ["Animal"], "fields": [_f("breed", _opt("str")), _f("age", _opt("int"))]}
+    plain = {"name": "Plain", "fields": [_f("v", _opt("int")), _f("b", _opt("bool"), "Attribute")]}
+    ca = {"name": "UA", "fields": [_f("ax", _opt("int")), _f("an", _opt("str"))]}
+    cb = {"name": "UB", "fields": [_f("bx", _opt("str")), _f("bn", _opt("bool"))]}
+    pool = [
+        _f("n1", _opt("int")),
+        _f("n2", _opt("int")),
+        _f("f1", _opt("bool"), "Attribute"),
+        _f("f2", _opt("bool")),
+        _f("pet", _opt({"cls": "Animal"})),
+        _f("pets", {"list": {"cls": "Animal"}}, default={"factory": "list"}),
+        _f("un", _opt({"union": [{"cls": "UA"}, {"cls": "UB"}]})),
+        _f("anyf", _opt("object")),
+        {"name": "comp", "type": {"list": "object"}, "metadata": {"type": "Elements", "choices": [
+            {"name": "ci", "type": "int"}, {"name": "ca", "type": {"cls": "Animal"}}, {"name": "cp", "type": {"cls": "Plain"}}]},
+         "default": {"factory": "list"}},
+        _f("kid", _opt({"cls": "Plain"})),
+        _f("kids", {"list": {"cls": "Plain"}}, default={"factory": "list"}),
+    ]
+    rng.shuffle(pool)
+    keep = [f for f in pool if rng.random() < 0.8]
+    if not any(f["name"] in ("pet", "pets", "un", "anyf", "comp") for f in keep):
+        keep.insert(0, pool[[f["name"] for f in pool].index("pet")])
+    if not any(f["name"] in ("n1", "n2", "f1", "f2") for f in keep):
+        keep.append(pool[[f["name"] for f in pool].index("n2")])
+    return {"classes": [animal, dog, plain, ca, cb, {"name": "Root", "fields": keep}]}
+
+
+def poly_instance(rng, uni: B.Universe):
+    C = uni.classes
+
+    def animal():
+        if rng.random() < 0.5:
+            return C["Dog"](name=rng.choice(["rex", None]), legs=rng.choice([4, None]), breed=rng.choice(["lab", "pug"]), age=rng.choice([None, 3]))
+        return C["Animal"](name=rng.choice(["tom", "x"]), legs=rng.choice([4, 2, None]))
+
+    def plain():
+        return C["Plain"](v=rng.choice([1, 7, None]), b=rng.choice([True, False, None]))
+
+    def union():
+        return C["UA"](ax=rng.choice([1, 5]), an=rng.choice(["s", None])) if rng.random() < 0.5 else C["UB"](bx=rng.choice(["t", "u"]), bn=rng.choice([True, None]))
+
+    makers = {
+        "n1": lambda: rng.choice([0, 12, -3]), "n2": lambda: rng.choice([5, 99]), "f1": lambda: rng.random() < 0.5, "f2": lambda: rng.random() < 0.5,
+        "pet": animal, "pets": lambda: [animal() for _ in range(rng.randint(1, 2))], "un": union,
+        "anyf": lambda: rng.choice([plain, animal, lambda: "text"])(),
+        "comp": lambda: [rng.choice([lambda: rng.randint(0, 9), animal, plain])() for _ in range(rng.randint(1, 3))],
+        "kid": plain, "kids": lambda: [plain() for _ in range(rng.randint(1, 2))],
+    }
+    kw = {}
+    for f in desc_fields(uni.desc, "Root"):
+        if rng.random() < 0.9:
+            kw[f["name"]] = makers[f["name"]]()
+    return C["Root"](**kw)
+
+
+def key_vars(uni: B.Universe, cname: str):
+    """JSON key -> field name of the class (the naming is read from the real metadata; what the
+    field *is* comes from the description)"""
+    from xsdata.formats.dataclass.context import XmlContext
+
+    cache = uni.__dict__.setdefault("_c10_keyvars", {})
+    if cname not in cache:
+        meta = XmlContext(models_package=uni.modname).build(uni.classes[cname])
+        cache[cname] = {(v.wrapper or v.local_name): v.name for v in meta.get_all_vars()}
+    return cache[cname]
+
+
+def desc_field(desc, cname, fname):
+    for f in desc_fields(desc, cname):
+        if f["name"] == fname:
+            return f
+    return None
+
+
+def _strip_type(t):
+    while isinstance(t, dict) and ("opt" in t or "list" in t or "tuple" in t):
+        t = t.get("opt") or t.get("list") or t.get("tuple")
+    return t
+
+
+def field_is_best_match(desc, f):
+    """the decoder binds a nested object of this field through bind_best_dataclass"""
+    if f.get("metadata", {}).get("type") in ("Elements", "Wildcard"):
+        return True
+    bt = _strip_type(f["type"])
+    if bt == "object" or (isinstance(bt, dict) and "union" in bt):
+        return True
+    if isinstance(bt, dict) and "cls" in bt:
+        return has_subclasses(desc, bt["cls"])
+    return False
+
+
+def dict_positions(uni: B.Universe, marked):
+    """for every dict of the encoded document that stands for a dataclass:
+    (path, class, inside_best) and its int/bool scalar members (key, kind)"""
+    desc = uni.desc
+    marks = sorted(marked_paths(marked), key=lambda pc: len(pc[0]))
+    info = {}
+    out = []
+    for path, cname in marks:
+        path = tuple(path)
+        inside = False
+        if path:
+            q = max((p for p in info if len(p) < len(path) and path[: len(p)] == p), key=len)
+            pc, pin = info[q]
+            fname = key_vars(uni, pc).get(path[len(q)])
+            f = desc_field(desc, pc, fname) if fname else None
+            inside = pin or f is None or field_is_best_match(desc, f)
+        info[path] = (cname, inside)
+        scalars = []
+        for k, v in dict_at(marked, path).items():
+            if k == MARK or isinstance(v, (dict, list)) or v is None:
+                continue
+            fname = key_vars(uni, cname).get(k)
+            f = desc_field(desc, cname, fname) if fname else None
+            if f is None or f.get("init") is False or f.get("metadata", {}).get("tokens"):
+                continue
+            t = f["type"]
+            if isinstance(t, dict) and "opt" in t:
+                t = t["opt"]
+            if t in ("int", "bool"):
+                scalars.append((k, t))
+        out.append({"path": list(path), "cls": cname, "inside_best": inside, "scalars": scalars, "size": len(dict_at(marked, path)) - 1})
+    return out
+
+
+def replace_in_val(uni: B.Universe, val, path, key, new):
+    """`val` (Universe.to_val of the decoded root) with the field reached by the JSON path/key set to `new`"""
+    out = copy.deepcopy(val)
+    cur = out
+    segs = list(path) + [key]
+    for i, seg in enumerate(segs):
+        if isinstance(seg, int):
+            if not (isinstance(cur, dict) and "list" in cur) or seg >= len(cur["list"]):
+                return None
+            cur = cur["list"][seg]
+            continue
+        if not (isinstance(cur, dict) and "obj" in cur):
+            return None
+        fname = key_vars(uni, cur["obj"]).get(seg)
+        slot = next((kv for kv in cur["fields"] if kv[0] == fname), None)
+        if slot is None:
+            return None
+        if i == len(segs) - 1:
+            slot[1] = new
+            return out
+        cur = slot[1]
+    return None
+
+
+
+
+def apply_dict_injection(data, inj):
+    if inj is None:
+        return data
+    if inj["kind"] == "key":
+        return inject_key(data, inj["path"], inj["key"], inj["value"], inj["pos"])
+    d = copy.deepcopy(data)
+    dict_at(d, inj["path"])[inj["key"]] = inj["bad"]
+    return d
+
+
+def run_dict_sequence(uni: B.Universe, clazz: str, docs, config: dict, via: str, share: str):
+    """decode the documents in order with ONE ParserConfig instance (and one decoder/parser
+    when share == 'decoder'); returns the per-document outcomes and the flags afterwards"""
+    from xsdata.exceptions import ConverterWarning
+    from xsdata.formats.dataclass.context import XmlContext
+    from xsdata.formats.dataclass.parsers import DictDecoder, JsonParser
+    from xsdata.formats.dataclass.parsers.config import ParserConfig
+
+    cfg = ParserConfig(**config)
+    ctx = XmlContext(models_package=uni.modname)
+
+    def make():
+        return DictDecoder(context=ctx, config=cfg) if via == "dict" else JsonParser(context=ctx, config=cfg)
+
+    dec = make()
+    outs = []
+    for d in docs:
+        if share != "decoder":
+            dec = make()
+        with warnings.catch_warnings(record=True) as w:
+            warnings.simplefilter("always")
+            try:
+                if via == "dict":
+                    obj = dec.decode(copy.deepcopy(d), uni.classes[clazz])
+                else:
+                    obj = dec.from_string(json.dumps(d), uni.classes[clazz])
+                n = sum(1 for x in w if issubclass(x.category, ConverterWarning))
+                outs.append({"ok": {"value": uni.to_val(obj), "warnings": n}})
+            except Exception as e:  # noqa: BLE001
+                outs.append(B.classify_exc(e))
+    return {"docs": outs, "config_after": {k: getattr(cfg, k) for k in FLAGS}}
+
+
+def real_bestcfg(keys, cands, config):
+    """real bind_best_dataclass (per-class attempt stubbed: it picks its outcome by the
+    configuration of the decoder it runs in), then one unconvertible scalar through the
+    same decoder's config; reports the caller's flags afterwards"""
+    from xsdata.exceptions import ConverterWarning, ParserError
+    from xsdata.formats.dataclass.context import XmlContext
+    from xsdata.formats.dataclass.models.elements import XmlMeta  # noqa: F401
+    from xsdata.formats.dataclass.parsers import DictDecoder
+    from xsdata.formats.dataclass.parsers.config import ParserConfig
+    from xsdata.formats.dataclass.parsers.utils import ParserUtils
+
+    classes, table = [], {}
+    for c in cands:
+        cls = make_dataclass(c["id"], [], bases=(best_class(tuple(c["local_names"])),))
+        classes.append(cls)
+        table[cls] = c
+
+    def fake(self, data, clazz):
+        c = table[clazz]
+        which = "strict" if self.config.fail_on_converter_warnings else "lenient"
+        if c["attempt_" + which] is None:
+            raise ValueError("attempt fails")
+        n_str, n_other = c["_mix_" + which]
+        names = list(c["local_names"])
+        kw = {n: "s" for n in names[:n_str]}
+        kw.update({n: 5 for n in names[n_str : n_str + n_other]})
+        return clazz(**kw)
+
+    dflt = ParserConfig()
+    cfg = ParserConfig(**{k: config.get(k, getattr(dflt, k)) for k in FLAGS})
+    ctx = XmlContext()
+    dec = DictDecoder(context=ctx, config=cfg)
+    steps = []
+    orig = DictDecoder.bind_dataclass
+    DictDecoder.bind_dataclass = fake
+    try:
+        try:
+            obj = dec.bind_best_dataclass({k: "v" for k in keys}, classes)
+            steps.append({"ok": type(obj).__name__})
+        except ParserError:
+            steps.append({"err": "ParserError"})
+        except Exception as e:  # noqa: BLE001
+            steps.append({"err": "LEAK:" + type(e).__name__})
+    finally:
+        DictDecoder.bind_dataclass = orig
+    # an unconvertible scalar decoded next by the same decoder (its config object)
+    meta = ctx.build(make_dataclass("C10Int", [("n", Optional[int], field(default=None, metadata={"type": "Element"}))]))
+    var = meta.get_all_vars()[0]
+    with warnings.catch_warnings(record=True) as w:
+        warnings.simplefilter("always")
+        try:
+            v = dec.bind_text(meta, var, "many")
+            n = sum(1 for x in w if issubclass(x.category, ConverterWarning))
+            steps.append({"ok": "warned" if (v == "many" and n == 1) else f"other:{v!r}:{n}"})
+        except ParserError:
+            steps.append({"err": "ParserError"})
+    return {"ok": {"steps": steps, "after": [getattr(cfg, k) for k in FLAGS]}}
